@@ -17,6 +17,9 @@ RULE = ("all multisets of 1..N positive items over 1..B+3 and longer multisets o
 ASSUMPTIONS = ["positive integer items", "OPT oracle: DP over count vectors, cross-validated against recursive enumeration by ./check --selftest"]
 
 PLANT = (12, (1, 2, 3, 4, 5, 6, 7, 8), 3)   # B, letters, maxparts
+# the last two: large odd bin sizes whose letters are the integers next to the class thresholds B/2 and B/3 (and tiny items)
+PLANT_BIG = [(12, (1, 2, 3, 4, 5, 6, 7)), (13, (1, 2, 3, 4, 5, 6, 7)), (9, (1, 2, 3, 4, 5)),
+             (101, (1, 2, 16, 17, 33, 34, 50, 51, 67)), (99, (1, 2, 16, 17, 33, 49, 50, 66))]
 
 
 def published():
@@ -33,6 +36,7 @@ def bounds(tier):
     return {"dense": f"values 1..B+3, 1..{6 if q else 7} items, B in (6,10,12)",
             "long": f"values 1..5 (B=6) and {{1,2,3,4,5,7}} (B=10), {7 if q else 8}..{10 if q else 12} items",
             "planted": f"B=12, letters {PLANT[1]}, patterns <= {PLANT[2]} parts, m=2..{8 if q else 12}",
+            "planted-big": "B=12, 13, 9 (letters 1..7 / 1..5) and B=101, 99 (letters 1, 2 and the integers next to B/6, B/3, B/2, 2B/3); every unordered pair of patterns (<=4 parts) with multiplicities " + ("(64,0),(40,24),(100,20)" if q else "(64,0),(40,24),(100,20),(20,100),(150,150)") + ": OPT = 64..300 bins, up to ~1200 items",
             "published": "decreasing/two-thirds family k=1..4 (B=1000), the two three-quarters examples"}
 
 
@@ -50,6 +54,19 @@ def tasks(tier):
         gen = ((it, B, m) for it, _ in spaces.planted(B, letters, m, maxparts=mp))
         for ch in spaces.chunked(gen, 300):
             ts.append(("planted", ch, None))
+    # large planted covers (OPT = m exactly-full bins, m in the tens and hundreds, where 3/4*OPT-4 separates 3/4 from 2/3):
+    # every unordered pair of patterns x a grid of multiplicities, for an even and two odd bin sizes
+    for Bb, lettersb in PLANT_BIG:
+        pats = spaces.partitions_of(Bb, lettersb, 4)
+        big = []
+        for i, p in enumerate(pats):
+            for r in pats[i:]:
+                for a, b in (((64, 0), (40, 24), (100, 20)) if q else ((64, 0), (40, 24), (100, 20), (20, 100), (150, 150))):
+                    if b == 0 and r is not p:
+                        continue
+                    big.append((tuple(sorted(p * a + r * b, reverse=True)), Bb, a + b))
+        for ch in spaces.chunked(big, 40):
+            ts.append(("planted-big", ch, None))
     ts.append(("published", published(), None))
     return ts
 
